@@ -344,7 +344,7 @@ class ExecuteOptionsBlock(ConfigBlock):
     @classmethod
     def from_execute_list(cls, execute_list=None):
         block = cls()
-        for option in execute_list:
+        for option in execute_list or []:
             if isinstance(option, (list, tuple)):
                 option, value = option
                 if option == "CreateThread":
